@@ -14,7 +14,11 @@
                  slow-path `local()` of a thread, released by the thread's TLS destructor), `tidEnd = end()`;
     instances    `instOf : handle → Option id`, `instEnd`;
     storage      `size k` (the `ConcurrentVector<T,128>` of storage `k`), `cell k tid off`;
-    cache        `cache t = (key, slot)`: the thread-local `{id, item*}` fast path of `local()`.
+    cache        `cache t = (key, slot)`: the thread-local `{id, item*}` fast path of `local()`.  The real key
+                 is the `_id` of the `EnumerableThreadLocal` that filled the cache; for a compact family that
+                 is the static storage object, which is never destroyed and whose `_id` is in bijection with
+                 the storage index, so the model uses the index; for a bare thread-local it is the instance's
+                 own never-reused `_id` (`fresh`), which is the instance key itself.
   What is assumed of the two id allocators (this is all that C14 provides and all that is used):
     an `allocate` returns an id that no live holder has (`ida_unique`), afterwards `end()` is larger
     than every id handed out (ids are `fetch_add` results) and `end()` never decreases; freed ids may be
